@@ -593,6 +593,8 @@ Record client_case := {
   cc_files : option dirent;        (* ... and the rest is what the real send_task_file/send_map_files/send_sym_files/
                                       send_dbg_files/send_info_file made of the local metadata files (Some L) *)
   cc_abort : bool;                 (* true: no MEnd; the connection is reset once the server has read all *)
+  cc_threads : bool;               (* the data messages were sent by several writer threads at the same time: their order on
+                                      the wire is any merge of the threads' sequences (cc_body lists them thread by thread) *)
   cc_split : nat;                  (* the server handles the first cc_split messages before the later clients of the
                                       case connect and the rest after them (>= all messages: strictly one after the other) *)
   cc_wsched : list Z;              (* short-write schedule given to the interposed write/writev *)
@@ -606,6 +608,8 @@ Definition cc_msgs (c : client_case) : list msg :=
 
 (* model of the sender under the same schedule == captured wire bytes *)
 Definition agree_send (c : client_case) : bool :=
+  if cc_threads c then (length (cc_wire c) =? length (concat (map enc (cc_msgs c))))%nat   (* same messages, some merge *)
+  else
   let '(st, fr) := send_all (wsched_of (cc_wsched c)) (cc_msgs c) in
   match st with WDone => list_eqb (concat fr) (cc_wire c) | _ => false end.
 (* model of the receiver on the captured bytes.  Order of the wake-ups: every client in turn is accepted
